@@ -257,7 +257,10 @@ func (u *PacketUnderlay) RunEventLoop(ctx context.Context) error {
 						block:     seg.block,
 					}
 					if err := u.writeOneSegment(closeReq, addr); err != nil {
-						return fmt.Errorf("writeOneSegment() failed: %w", err)
+						// The peer can't be reached, e.g. its source address can't be used
+						// as a destination. This must not stop the event loop: the same
+						// socket serves the sessions of all the other peers.
+						log.Debugf("%v failed to request peer %v to close session %d: %v", u, addr, das.sessionID, err)
 					}
 				}
 				continue
